@@ -27,6 +27,7 @@ import (
 	"fmt"
 	"os"
 	"reflect"
+	"sort"
 	"strconv"
 	"strings"
 	"time"
@@ -239,6 +240,9 @@ type Inv struct {
 	M      string `json:"m,omitempty"`
 	Args   []any  `json:"args,omitempty"`
 	Nested *Out   `json:"nested,omitempty"`
+	// parameters (by position) for which the user function did NOT receive the caller's own slice / map /
+	// pointer / channel (same backing array, same map, same address) but something else, e.g. a clone
+	Ident []int `json:"ident,omitempty"`
 }
 type Fld struct {
 	F string `json:"f"`
@@ -250,6 +254,9 @@ type Out struct {
 	Inv []Inv   `json:"inv,omitempty"`
 	Msg string  `json:"msg,omitempty"`
 	L   [][]Fld `json:"l"`
+	// "call": parameters (by position) into which the user function wrote a marker (element 0 of a slice, a new
+	// key of a map) that the caller does not see in its own argument after the call
+	LostWrites []int `json:"lost_writes,omitempty"`
 }
 
 var invoked []Inv
@@ -325,7 +332,135 @@ func recordsOut(recs reflect.Value, variadic bool) Out {
 	return o
 }
 
+// one activation of a generated method, as the caller sees it: the argument values it passed (a variadic
+// parameter as the slice that was passed) and what the user function reports to have written into them
+type frame struct {
+	args  []reflect.Value
+	got   []reflect.Value       // what the user function received (set by it)
+	wrote map[int]int           // parameter -> marker token written by the user function
+	saved map[int]reflect.Value // parameter -> original element 0 (slices), to be put back
+}
+
+var frames []*frame
+
+func refIdentity(v reflect.Value) (uintptr, bool) {
+	switch v.Kind() {
+	case reflect.Slice:
+		if v.IsNil() || v.Cap() == 0 {
+			return 0, false
+		}
+		return v.Pointer(), true
+	case reflect.Map, reflect.Ptr, reflect.Chan:
+		if v.IsNil() {
+			return 0, false
+		}
+		return v.Pointer(), true
+	}
+	return 0, false
+}
+
+// a marker token different from tok that the element type can carry; ok=false if there is none
+func markerFor(t reflect.Type, tok int) (int, bool) {
+	switch t.Kind() {
+	case reflect.Bool, reflect.Func, reflect.Chan:
+		return 0, false
+	}
+	if tok == 7 {
+		return 8, true
+	}
+	return 7, true
+}
+
+// the user function's side: compare identities, then (at its very end) write markers
+func (fr *frame) identMismatch(got []reflect.Value) []int {
+	var bad []int
+	for i, g := range got {
+		if i >= len(fr.args) {
+			break
+		}
+		want, ok := refIdentity(fr.args[i])
+		if !ok {
+			continue
+		}
+		if have, ok2 := refIdentity(g); !ok2 || have != want {
+			bad = append(bad, i)
+		}
+	}
+	return bad
+}
+
+func (fr *frame) writeMarkers(got []reflect.Value) {
+	for i, g := range got {
+		if i >= len(fr.args) {
+			break
+		}
+		switch g.Kind() {
+		case reflect.Slice:
+			if g.IsNil() || g.Len() == 0 {
+				continue
+			}
+			mk, ok := markerFor(g.Type().Elem(), dec(g.Index(0)))
+			if !ok {
+				continue
+			}
+			fr.saved[i] = reflect.New(g.Type().Elem()).Elem()
+			fr.saved[i].Set(g.Index(0))
+			g.Index(0).Set(enc(g.Type().Elem(), mk))
+			fr.wrote[i] = mk
+		case reflect.Map:
+			if g.IsNil() || g.Len() != 1 {
+				continue
+			}
+			mk, ok := markerFor(g.Type().Key(), dec(g.MapKeys()[0]))
+			if !ok {
+				continue
+			}
+			if _, ok := markerFor(g.Type().Elem(), 0); !ok && g.Type().Elem().Kind() != reflect.Bool {
+				continue
+			}
+			g.SetMapIndex(enc(g.Type().Key(), mk), reflect.Zero(g.Type().Elem()))
+			fr.wrote[i] = mk
+		}
+	}
+}
+
+// the caller's side, after the generated method returned or panicked: are the markers in MY arguments? put things back
+func (fr *frame) finish(got []reflect.Value, out *Out) {
+	for i, mk := range fr.wrote {
+		a := fr.args[i]
+		switch a.Kind() {
+		case reflect.Slice:
+			if a.Len() == 0 || dec(a.Index(0)) != mk {
+				out.LostWrites = append(out.LostWrites, i)
+			}
+			if a.Len() > 0 {
+				a.Index(0).Set(fr.saved[i])
+			}
+			if i < len(got) && got[i].Kind() == reflect.Slice && got[i].Len() > 0 {
+				got[i].Index(0).Set(fr.saved[i]) // a clone keeps nothing of the marker either
+			}
+		case reflect.Map:
+			k := enc(a.Type().Key(), mk)
+			if !a.MapIndex(k).IsValid() {
+				out.LostWrites = append(out.LostWrites, i)
+			}
+			a.SetMapIndex(k, reflect.Value{})
+			if i < len(got) && got[i].Kind() == reflect.Map && !got[i].IsNil() {
+				got[i].SetMapIndex(k, reflect.Value{})
+			}
+		}
+	}
+	sort.Ints(out.LostWrites)
+}
+
 func runOp(mock reflect.Value, op Op, depth int) (out Out) {
+	var fr *frame // set by "call": the activation this operation starts
+	defer func() { // runs after the recover below: the outcome is known, look at my own arguments again
+		if fr != nil {
+			fr.finish(fr.got, &out)
+			frames = frames[:len(frames)-1]
+		}
+	}()
 	defer func() {
 		if r := recover(); r != nil {
 			switch r.(type) {
@@ -362,7 +497,17 @@ func runOp(mock reflect.Value, op Op, depth int) (out Out) {
 						rec.Args = append(rec.Args, dec(a))
 					}
 				}
+				var act *frame
+				if len(frames) > 0 {
+					act = frames[len(frames)-1] // the activation being served (nested calls push their own later)
+					act.got = args
+					rec.Ident = act.identMismatch(args)
+				}
 				invoked = append(invoked, rec)
+				if act != nil {
+					// the last thing the function does, also when it panics: write into its slice / map arguments
+					defer act.writeMarkers(args)
+				}
 				my := actDepth
 				todo := nested
 				if first {
@@ -410,32 +555,27 @@ func runOp(mock reflect.Value, op Op, depth int) (out Out) {
 		for i, n := range op.Fixed {
 			args = append(args, enc(mt.In(i), n))
 		}
-		var rets []reflect.Value
-		switch op.Var {
-		case "none":
-			rets = mv.Call(args)
-		case "elems":
-			et := mt.In(nfix).Elem()
-			for _, n := range op.Elems {
-				args = append(args, enc(et, n))
-			}
-			if len(op.Elems) == 0 {
-				// compiled Go passes a nil slice when no variadic argument is given (spec, "Passing
-				// arguments to ... parameters"); reflect's Call would build an empty non-nil one
-				rets = mv.CallSlice(append(args, reflect.Zero(mt.In(nfix))))
-			} else {
-				rets = mv.Call(args)
-			}
-		case "spread":
+		// a variadic parameter is always passed as an explicit slice (CallSlice): compiled Go builds that slice at
+		// the call site (nil when no variadic argument is given - reflect's Call would build an empty non-nil one -,
+		// the caller's own slice for f(xs...)), and this way the caller can tell whether <M>Func got that very slice
+		if op.Var != "none" {
 			st := mt.In(nfix)
-			s := reflect.Zero(st)
-			if !op.NilSlice {
-				s = reflect.MakeSlice(st, len(op.Elems), len(op.Elems))
+			sl := reflect.Zero(st)
+			if (op.Var == "elems" && len(op.Elems) > 0) || (op.Var == "spread" && !op.NilSlice) {
+				sl = reflect.MakeSlice(st, len(op.Elems), len(op.Elems))
 				for i, n := range op.Elems {
-					s.Index(i).Set(enc(st.Elem(), n))
+					sl.Index(i).Set(enc(st.Elem(), n))
 				}
 			}
-			rets = mv.CallSlice(append(args, s))
+			args = append(args, sl)
+		}
+		fr = &frame{args: args, wrote: map[int]int{}, saved: map[int]reflect.Value{}}
+		frames = append(frames, fr)
+		var rets []reflect.Value
+		if op.Var == "none" {
+			rets = mv.Call(args)
+		} else {
+			rets = mv.CallSlice(args)
 		}
 		o := Out{K: "ret", Res: []any{}}
 		for _, r := range rets {
